@@ -184,8 +184,22 @@ static void switch_to(Fiber* next) {
     abort();
 }
 
+// who waits for what: written into the trace when a run ends in a livelock, so a replay shows the cycle
+static void trace_waiters() {
+    for (auto& up : K.fibers) {
+        if (up->st != Fiber::Blocked) continue;
+        if (up->deadline == INT64_MAX) tracef("  blocked without deadline: p%d f%d %s", up->pid, up->id, up->name.c_str());
+    }
+    for (auto& [addr, st] : K.mutexes) {
+        if (st.owner == 0) continue;
+        for (auto& up : K.fibers)
+            if (up->id == st.owner) tracef("  mutex %p held by p%d f%d %s (%s)", addr, up->pid, up->id, up->name.c_str(), up->st == Fiber::Blocked ? "blocked" : up->st == Fiber::Done ? "done" : "runnable");
+    }
+}
+
 [[noreturn]] void abort_run(const std::string& why) {
     if (K.stats.fatal.empty()) K.stats.fatal = why;
+    if (K.stats.step_limit && !K.aborting) trace_waiters();
     tracef("ABORT RUN: %s", why.c_str());
     K.aborting = true;
     switch_to_root();
@@ -418,6 +432,12 @@ Quiet::~Quiet() { if (K.cur && --K.cur->quiet == 0) tsan_quiet_end(); }
 void fail_run(const std::string& why) { abort_run("driver: " + why); }
 static std::function<void()> g_heartbeat;
 void set_heartbeat(std::function<void()> fn) { g_heartbeat = std::move(fn); }
+void set_deschedule_after_unlock(std::uint32_t per_65536, std::int64_t max_ns) {
+    if (!detail::sim()) return;
+    detail::K.knobs.deschedule_after_unlock_per_65536 = per_65536;
+    if (max_ns > 0) detail::K.knobs.deschedule_max_ns = max_ns;
+}
+
 namespace detail { void heartbeat_tick() { if ((K.stats.steps & 0x3fff) == 0 && g_heartbeat) g_heartbeat(); } }
 bool in_sim() { return sim(); }
 Knobs& knobs() { return K.knobs; }
@@ -815,7 +835,18 @@ int pthread_mutex_unlock(pthread_mutex_t* m) {
         return 0;
     }
     if (__tsan_release) __tsan_release(m);
-    if (--it->second.depth <= 0) K.mutexes.erase(it);
+    bool released = false;
+    if (--it->second.depth <= 0) { K.mutexes.erase(it); released = true; }
+    if (released && K.knobs.deschedule_after_unlock_per_65536 && K.cur && K.rng.below(65536) < K.knobs.deschedule_after_unlock_per_65536) {
+        Fiber* self = K.cur;
+        unpoison_fiber(self);
+        ++K.stats.descheduled_after_unlock;
+        self->st = Fiber::Blocked;
+        self->pred = nullptr;
+        self->deadline = K.now + 1 + static_cast<std::int64_t>(K.rng.below(static_cast<std::uint64_t>(K.knobs.deschedule_max_ns)));
+        dispatch();
+        return 0;
+    }
     preempt_point();
     return 0;
 }
